@@ -31,13 +31,13 @@ var Prop = &engine.Prop{
 		"bitmap1024.VerifSetSparseMagic (build tag verif) is the only writer of the threshold and cases of one child run sequentially",
 		"operands of And/Or/... are fresh copies for every call: whether an operation leaves its receiver untouched is not judged",
 	},
-	ShardsQuick: 4, ShardsThorough: 16,
+	ShardsQuick: 4, ShardsThorough: 48,
 	Kinds: []engine.Kind{
-		{Name: "iter64", Quick: 450, Thorough: 22500, Fn: iter64Case},
-		{Name: "iter1024", Quick: 400, Thorough: 20000, Fn: iter1024Case},
-		{Name: "set64", Quick: 1000, Thorough: 50000, Fn: set64Case},
-		{Name: "set1024", Quick: 2000, Thorough: 100000, Fn: set1024Case},
-		{Name: "algebra", Quick: 1000, Thorough: 50000, Fn: algebraCase},
+		{Name: "iter64", Quick: 450, Thorough: 67500, Fn: iter64Case},
+		{Name: "iter1024", Quick: 400, Thorough: 60000, Fn: iter1024Case},
+		{Name: "set64", Quick: 1000, Thorough: 150000, Fn: set64Case},
+		{Name: "set1024", Quick: 2000, Thorough: 300000, Fn: set1024Case},
+		{Name: "algebra", Quick: 1000, Thorough: 150000, Fn: algebraCase},
 	},
 	Floors: floors(),
 }
